@@ -2,6 +2,8 @@ package harness
 
 import (
 	"bytes"
+	"fmt"
+	"strings"
 	"testing"
 
 	tq "github.com/facebookincubator/tacquito"
@@ -15,10 +17,13 @@ import (
 // obfuscated exactly when the request was; a request numbered 255 gets no reply packet.
 
 type c06Step struct {
-	Kind   string  `json:"kind"` // authen | authen-restart | author | acct | raw
-	Status byte    `json:"status"`
-	N      int     `json:"n"` // size of the variable part
-	Tile   model.B `json:"tile"`
+	// FailFirst: before the real reply the handler attempts a reply that cannot be encoded (nothing is
+	// sent for it); the reply that is sent must still be numbered request+1
+	FailFirst string  `json:"fail_first,omitempty"` // "" | raw-error | long-arg | restart-error
+	Kind      string  `json:"kind"`                 // authen | authen-restart | author | acct | raw
+	Status    byte    `json:"status"`
+	N         int     `json:"n"` // size of the variable part
+	Tile      model.B `json:"tile"`
 }
 
 type c06Case struct {
@@ -94,6 +99,7 @@ func genC06(t *rapid.T) c06Case {
 			s.Status = rapid.SampledFrom(acctStatuses).Draw(t, "status")
 		}
 		s.N = rapid.OneOf(rapid.IntRange(0, 40), rapid.SampledFrom([]int{0, 1, 255, 256, 4096, 65500})).Draw(t, "n")
+		s.FailFirst = rapid.SampledFrom([]string{"", "", "", "", "raw-error", "long-arg", "restart-error"}).Draw(t, "fail_first")
 		if s.Kind == "raw" && rapid.IntRange(0, 5).Draw(t, "rawmax") == 0 {
 			s.N = rapid.SampledFrom([]int{65535, 65536}).Draw(t, "rawn")
 		}
@@ -104,6 +110,7 @@ func genC06(t *rapid.T) c06Case {
 
 func runC06(t failer, c c06Case) {
 	ev.Eval()
+	journal("C06", c)
 	fail := func(sig, format string, args ...interface{}) {
 		violation(t, "C06", "reply", "C06:"+sig, c, format, args...)
 	}
@@ -116,6 +123,14 @@ func runC06(t failer, c c06Case) {
 		v, _ := c.Steps[step].replyValue()
 		if step < len(c.Steps)-1 {
 			resp.Next(self)
+		}
+		switch c.Steps[step].FailFirst {
+		case "raw-error":
+			_, _ = resp.Reply(errED{})
+		case "long-arg":
+			_, _ = resp.Reply(tq.NewAuthorReply(tq.SetAuthorReplyStatus(tq.AuthorStatusPassAdd), tq.SetAuthorReplyArgs(strings.Repeat("a", 300))))
+		case "restart-error":
+			_, _ = resp.Reply(tq.NewAuthenReply(tq.SetAuthenReplyStatus(tq.AuthenStatus(0x63))))
 		}
 		step++
 		_, _ = resp.Reply(v)
@@ -201,6 +216,9 @@ func classifyC06(c c06Case) {
 	ev.Class("type:" + string('0'+c.Type))
 	for _, s := range c.Steps {
 		ev.Class("reply:" + s.Kind)
+		if s.FailFirst != "" {
+			ev.Class("unencodable-reply-attempt-first:" + s.FailFirst)
+		}
 	}
 	if len(c.Steps) >= 2 {
 		ev.Class("depth>=2")
@@ -248,3 +266,10 @@ func TestC06Regress(t *testing.T) {
 		runC06(t, c)
 	}
 }
+
+// errED is an EncoderDecoder that cannot be encoded.
+type errED struct{}
+
+func (errED) MarshalBinary() ([]byte, error) { return nil, fmt.Errorf("cannot encode") }
+func (errED) UnmarshalBinary([]byte) error   { return nil }
+func (errED) Fields() map[string]string      { return nil }
